@@ -89,17 +89,11 @@ theorem argTexts_length : ∀ a : Tys, (a.argTexts nm ln).length = a.toList.leng
   | .nil => rfl
   | .cons x xs => by simp [Tys.argTexts, Tys.toList, argTexts_length xs]
 
-/-! ### the splitting before `fix-c18-6` (`partition(') as ')`, `split(', ')`): agrees exactly on simple parameters -/
+/-! ### separator-free texts -/
 
 def noSep (l : List Tok) : Bool := l.all (fun t => !t.isSep)
-def noCloseAs (l : List Tok) : Bool := l.all (fun t => t != .closeAs)
 
 theorem noSep_append (a b : List Tok) : noSep (a ++ b) = (noSep a && noSep b) := by simp [noSep]
-theorem noCloseAs_append (a b : List Tok) : noCloseAs (a ++ b) = (noCloseAs a && noCloseAs b) := by simp [noCloseAs]
-
-theorem noCloseAs_of_noSep (l : List Tok) (h : noSep l = true) : noCloseAs l = true := by
-  simp only [noSep, noCloseAs, List.all_eq_true] at h ⊢
-  intro t ht; have := h t ht; cases t <;> simp_all [Tok.isSep]
 
 /-- a type is `simple` exactly when its text contains neither `', '` nor `') as '` -/
 theorem simple_iff_noSep : ∀ t : Ty, t.simple = true ↔ noSep (t.render nm ln) = true
@@ -112,138 +106,5 @@ theorem simple_iff_noSep : ∀ t : Ty, t.simple = true ↔ noSep (t.render nm ln
     simp only [Ty.simple, Ty.render]
     rw [ih]
     simp [noSep, Tok.isSep]
-
-/-! ### partition / split on separator-free texts -/
-
-theorem partitionCloseAs_append (xs ys : List Tok) (h : noCloseAs xs = true) :
-    partitionCloseAs (xs ++ .closeAs :: ys) = (xs, ys) := by
-  induction xs with
-  | nil => rfl
-  | cons x xs ih =>
-    simp only [noCloseAs, List.all_cons, Bool.and_eq_true, bne_iff_ne, ne_eq] at h
-    have ih := ih (by simpa [noCloseAs] using h.2)
-    cases x with
-    | closeAs => exact absurd rfl h.1
-    | atom s => simp [partitionCloseAs, ih]
-    | opn s => simp [partitionCloseAs, ih]
-    | cls s => simp [partitionCloseAs, ih]
-    | comma => simp [partitionCloseAs, ih]
-
-theorem partitionCloseAs_fst_noCloseAs : ∀ l : List Tok, noCloseAs (partitionCloseAs l).1 = true
-  | [] => rfl
-  | .closeAs :: r => rfl
-  | .atom s :: r | .opn s :: r | .cls s :: r => by
-    have ih := partitionCloseAs_fst_noCloseAs r
-    simp only [partitionCloseAs, noCloseAs, List.all_cons] at ih ⊢
-    simp [ih]
-  | .comma :: r => by
-    have ih := partitionCloseAs_fst_noCloseAs r
-    simp only [partitionCloseAs, noCloseAs, List.all_cons] at ih ⊢
-    simp [ih]
-
-theorem splitComma_ne_nil : ∀ l : List Tok, splitComma l ≠ []
-  | [] => by simp [splitComma]
-  | .comma :: r => by simp [splitComma]
-  | .atom s :: r | .opn s :: r | .cls s :: r => by
-    simp only [splitComma]; split <;> simp
-  | .closeAs :: r => by
-    simp only [splitComma]; split <;> simp
-
-theorem splitComma_noSep (xs : List Tok) (h : noSep xs = true) : splitComma xs = [xs] := by
-  induction xs with
-  | nil => rfl
-  | cons x xs ih =>
-    simp only [noSep, List.all_cons, Bool.and_eq_true, Bool.not_eq_true'] at h
-    have ih := ih (by simpa [noSep] using h.2)
-    cases x <;> simp [Tok.isSep] at h <;> simp [splitComma, ih]
-
-theorem splitComma_append_comma (xs ys : List Tok) (h : noSep xs = true) :
-    splitComma (xs ++ .comma :: ys) = xs :: splitComma ys := by
-  induction xs with
-  | nil => rfl
-  | cons x xs ih =>
-    simp only [noSep, List.all_cons, Bool.and_eq_true, Bool.not_eq_true'] at h
-    have ih := ih (by simpa [noSep] using h.2)
-    cases x <;> simp [Tok.isSep] at h <;> simp [splitComma, ih]
-
-/-- every piece that `split(', ')` returns from a text without `') as '` is separator free -/
-theorem splitComma_pieces_noSep : ∀ l : List Tok, noCloseAs l = true → ∀ p ∈ splitComma l, noSep p = true
-  | [], _, p, hp => by simp [splitComma] at hp; subst hp; rfl
-  | .comma :: r, h, p, hp => by
-    simp only [splitComma, List.mem_cons] at hp
-    rcases hp with rfl | hp
-    · rfl
-    · exact splitComma_pieces_noSep r (by simpa [noCloseAs] using h) p hp
-  | .closeAs :: r, h, _, _ => by simp [noCloseAs] at h
-  | .atom s :: r, h, p, hp | .opn s :: r, h, p, hp | .cls s :: r, h, p, hp => by
-    have ih := splitComma_pieces_noSep r (by simpa [noCloseAs] using h)
-    simp only [splitComma] at hp
-    split at hp
-    · rename_i q qs heq
-      simp only [List.mem_cons] at hp
-      rcases hp with rfl | hp
-      · have := ih q (by rw [heq]; simp)
-        simpa [noSep, Tok.isSep] using this
-      · exact ih p (by rw [heq]; simp [hp])
-    · rename_i heq; exact absurd heq (splitComma_ne_nil r)
-
-/-! ### the arguments of a typed function test -/
-
-theorem renderArgs_split : ∀ a : Tys, a ≠ .nil → a.allSimple = true →
-    splitComma (a.renderArgs nm ln) = a.argTexts nm ln ∧ noCloseAs (a.renderArgs nm ln) = true
-  | .nil, h, _ => absurd rfl h
-  | .cons x .nil, _, h => by
-    simp only [Tys.allSimple, Bool.and_eq_true] at h
-    have hx := (simple_iff_noSep nm ln x).1 h.1
-    simp only [Tys.renderArgs, Tys.argTexts]
-    exact ⟨splitComma_noSep _ hx, noCloseAs_of_noSep _ hx⟩
-  | .cons x (.cons y ys), _, h => by
-    simp only [Tys.allSimple, Bool.and_eq_true] at h
-    have hx := (simple_iff_noSep nm ln x).1 h.1
-    have ih := renderArgs_split (.cons y ys) (by simp) (by simp [Tys.allSimple, h.2])
-    simp only [Tys.renderArgs, Tys.argTexts]
-    refine ⟨?_, ?_⟩
-    · rw [splitComma_append_comma _ _ hx]
-      have := ih.1
-      simp only [Tys.renderArgs, Tys.argTexts] at this
-      rw [this]
-    · rw [noCloseAs_append]
-      have h2 := ih.2
-      simp only [Tys.renderArgs] at h2
-      rw [noCloseAs_of_noSep _ hx, Bool.true_and]
-      simp only [noCloseAs, List.all_cons] at h2 ⊢
-      simp [h2]
-
-/-- if every piece of `argTexts` is separator free, every argument is `simple` -/
-theorem argTexts_noSep_simple : ∀ a : Tys, a ≠ .nil → (∀ p ∈ a.argTexts nm ln, noSep p = true) → a.allSimple = true
-  | .nil, h, _ => absurd rfl h
-  | .cons x .nil, _, hp => by
-    have := hp (x.render nm ln) (by simp [Tys.argTexts])
-    simp [Tys.allSimple, (simple_iff_noSep nm ln x).2 this]
-  | .cons x (.cons y ys), _, hp => by
-    have hx := hp (x.render nm ln) (by simp [Tys.argTexts])
-    have ih := argTexts_noSep_simple (.cons y ys) (by simp) (fun p h => hp p (by
-      simp only [Tys.argTexts, List.mem_cons] at h ⊢; exact Or.inr h))
-    simp only [Tys.allSimple, Bool.and_eq_true] at ih ⊢
-    exact ⟨(simple_iff_noSep nm ln x).2 hx, ih⟩
-
-/-- **the string-level splitting agrees with the AST exactly on simple argument lists.**
-`→`: when every argument is `simple`, `st[9:].partition(') as ')` / `.split(', ')` return the texts of the
-arguments and the text of the return type.  `←`: whenever the argument pieces come out right, every argument
-is `simple` — so for every typed function test with a typed function test or a typed map test among its
-arguments (at any depth) the code compares other pieces than the AST says (the region `¬ Ty.flat`). -/
-theorem pySplitOld_agrees_iff (a : Tys) (r : Ty) (ha : a ≠ .nil) :
-    (pySplitOld ((Ty.func a r).render nm ln)).1 = a.argTexts nm ln ↔ a.allSimple = true := by
-  constructor
-  · intro h
-    apply argTexts_noSep_simple nm ln a ha
-    intro p hp
-    rw [← h] at hp
-    exact splitComma_pieces_noSep _ (partitionCloseAs_fst_noCloseAs _) p hp
-  · intro h
-    have hs := renderArgs_split nm ln a ha h
-    simp only [pySplitOld, Ty.render, List.tail_cons]
-    rw [partitionCloseAs_append _ _ hs.2]
-    exact hs.1
 
 end EPV.SeqType
